@@ -296,8 +296,12 @@ func (store ItemVarStore) GetDelta(index VariationStoreIndex, coords []Coord) fl
 	}
 	deltaSet := varData.DeltaSets[index.DeltaSetInner]
 	var delta float32
+	regions := store.VariationRegionList.VariationRegions
 	for i, regionIndex := range varData.RegionIndexes {
-		region := store.VariationRegionList.VariationRegions[regionIndex]
+		if int(regionIndex) >= len(regions) || i >= len(deltaSet) { // invalid table
+			continue
+		}
+		region := regions[regionIndex]
 		v := region.Evaluate(coords)
 		delta += float32(deltaSet[i]) * v
 	}
@@ -308,6 +312,9 @@ func (store ItemVarStore) GetDelta(index VariationStoreIndex, coords []Coord) fl
 func (vr VariationRegion) Evaluate(coords []Coord) float32 {
 	v := float32(1)
 	for axis, coord := range coords {
+		if axis >= len(vr.RegionAxes) { // more coordinates than the axes of the table
+			break
+		}
 		factor := vr.RegionAxes[axis].evaluate(coord)
 		v *= factor
 	}
